@@ -73,6 +73,12 @@ func runCase(c *core.Case) {
 		c.Unsure("fixture: %v", err)
 		return
 	}
+	if c.Index%3 == 1 {
+		// what a crash between writing and renaming the board's temporary file leaves behind: a stale temporary file
+		// longer than anything this run will write
+		os.WriteFile(filepath.Join(srv.ConfigDir, "MessageBoard.txt.tmp"), []byte(strings.Repeat("stale temporary board of a crashed server\r", 2500)), 0644)
+		c.Count("stale_board_temp_file", 1)
+	}
 	defer srv.Close()
 	var clock atomic.Int64
 	var mu sync.Mutex
